@@ -182,6 +182,10 @@ type Sel struct {
 	// Nest: the function also queries the handle it is being called from (a selector such as "has a
 	// signature linked to it" does); its answer is the same
 	Nest bool
+	// ByStream: the function recognises the objects of M by what their descriptors *say* — it reads
+	// Descriptor.GetIntegrityReader and compares with the streams of those objects taken beforehand
+	// ("find the object with this descriptor digest") — and by ID; its answer is the same
+	ByStream bool
 }
 
 func idsPlus(ids []uint32) string {
